@@ -62,6 +62,8 @@ CAT = {
     # an inverted L entered top wire first: the second object is grounded at its FIRST end and meets the earlier object with its second
     'G29': ([('w', 3, (0.0, 0.0, 1.5), (1.4, 0.3, 1.6), 0.003),
              ('w', 3, (0.0, 0.0, 0.0), (0.0, 0.0, 1.5), 0.002)], True),
+    # a helix of exactly two segments (three segment ends: a 3 x 3 array of points) continued by a wire from its last end
+    'G30': ([('h', 2, 0.3, 0.6, 0.002, 0.3, 0.25), ('w', 3, (-0.3, 0.0, 0.3), (-0.5, 0.9, 0.8), 0.002)], False),
     'G16': ([('w', 4, (0.2, 0.1, 2.0), (0.0, 0.0, 0.0), 0.002),
              ('w', 2, (0.2, 0.1, 2.0), (1.1, 0.4, 2.1), 0.003)], True),
 }
